@@ -9,6 +9,7 @@ import (
 	"github.com/zeromicro/go-zero/core/lang"
 	"github.com/zeromicro/go-zero/core/threading"
 	"github.com/zeromicro/go-zero/core/timex"
+	"github.com/zeromicro/go-zero/internal/verifhook"
 )
 
 const drainWorkers = 8
@@ -171,6 +172,7 @@ func (tw *TimingWheel) drainAll(fn func(key, value any)) {
 			slot.Remove(e)
 			e = next
 			if !task.removed {
+				verifhook.At("wheel.drain.item")
 				runner.Schedule(func() {
 					fn(task.key, task.value)
 				})
@@ -314,6 +316,7 @@ func (tw *TimingWheel) scanAndRunTasks(l *list.List) {
 		e = next
 	}
 
+	verifhook.At("wheel.fire", len(tasks))
 	tw.runTasks(tasks)
 }
 
